@@ -180,9 +180,30 @@ func (smpl *Simple[Type]) main() {
 	case <-smpl.breaker.IsBreaked():
 	case <-smpl.opts.Ctx.Done():
 	case <-smpl.graceful.IsBreaked():
-		smpl.priority.GracefulStop()
+		smpl.gracefulStop()
 	case err := <-smpl.priority.Err():
 		smpl.err <- err
+	}
+}
+
+// Waits for graceful termination of the priority discipline, but remains
+// interruptible by the rough stop and by the context cancellation.
+func (smpl *Simple[Type]) gracefulStop() {
+	done := make(chan struct{})
+
+	smpl.wg.Add(1)
+
+	go func() {
+		defer smpl.wg.Done()
+		defer close(done)
+
+		smpl.priority.GracefulStop()
+	}()
+
+	select {
+	case <-smpl.breaker.IsBreaked():
+	case <-smpl.opts.Ctx.Done():
+	case <-done:
 	}
 }
 
